@@ -285,7 +285,18 @@ def same_quantity(prog, f, a, b):
     if a is b:
         return True
     if a.is_inst and b.is_inst and a.op == "load" and b.op == "load":
-        return _same_loc(prog, f, a.ops[0], b.ops[0])
+        if not _same_loc(prog, f, a.ops[0], b.ops[0]):
+            return False
+        if a.fn is b.fn:
+            from .memver import written_between
+            if written_between(prog, a.fn, a, b):
+                import os
+                if os.environ.get("VERIF_MEMVER_LOG"):
+                    with open(os.environ["VERIF_MEMVER_LOG"], "a") as fh:
+                        fh.write("%s %s:%d %s:%d\n" % (a.fn.name, a.fn.unit.src, a.line, b.fn.unit.src, b.line))
+                if not os.environ.get("VERIF_MEMVER_OFF"):
+                    return False
+        return True
     if a.is_inst and b.is_inst and a.op == "call" and b.op == "call" and norm_callee(a.callee) == "strlen" and \
             norm_callee(b.callee) == "strlen":
         return same_quantity(prog, f, a.ops[0], b.ops[0]) or _same_ptr(prog, f, a.ops[0], b.ops[0])
